@@ -155,6 +155,13 @@ func (bal *BalanceGslb) Reload(gslbConf gslb_conf.GslbClusterConf) error {
 	bal.lock.Lock()
 	defer bal.lock.Unlock()
 
+	// reject a conf without available sub cluster before anything is modified or released
+	if err := gslbConf.Check(); err != nil {
+		// should never be here, as ClusterCheck return true
+		log.Logger.Critical("gslb total weight = 0 [%s]", bal.name)
+		return fmt.Errorf("gslb total weight = 0 [%s]", bal.name)
+	}
+
 	// create new SubClusterList
 	var subListNew SubClusterList
 
@@ -212,12 +219,6 @@ func (bal *BalanceGslb) Reload(gslbConf gslb_conf.GslbClusterConf) error {
 			availableNum += 1
 			lastAvailIndex = index
 		}
-	}
-
-	if totalWeight == 0 {
-		// should never be here, as ClusterCheck return true
-		log.Logger.Critical("gslb total weight = 0 [%s]", bal.name)
-		return fmt.Errorf("gslb total weight = 0 [%s]", bal.name)
 	}
 
 	bal.totalWeight = totalWeight
